@@ -300,8 +300,7 @@ GenSize == Ready /\
     \/ \E n \in (0..MaxLen) \cup Big2 : EnsureSizeSet(n)
     \/ \E n \in Big2, sh \in {0, 1} : EnsureSizeX(n, 0, sh) \/ EnsureSizeSetX(n, 0, sh)
     \/ \E n \in {0, 3, 6} \cup Big2, e \in Big2, sh \in {0, 1} : EnsureSizeX(n, e, sh)
-    \* (a boundary value for extraReallocItems together with setNumItems = true is kept out: the header says the argument "is ignored if (setNumItems) is true",
-    \*  the code does not ignore it - reported, see checks/c16.py)
+    \/ \E n \in {0, 2, 4}, e \in Big2, sh \in {0, 1} : n <= MaxLen /\ EnsureSizeSetX(n, e, sh)      \* "[extraReallocItems] is ignored if (setNumItems) is true", whatever its value
     \/ \E x \in {<<0, 0, 1>>, <<2, 0, 1>>, <<4, 0, 1>>, <<4, 2, 0>>, <<3, 2, 1>>, <<6, 0, 0>>} : EnsureSizeX(x[1], x[2], x[3])
     \/ \E x \in {<<0, 0, 1>>, <<1, 0, 1>>, <<2, 2, 1>>, <<3, 0, 0>>, <<4, 0, 1>>} : x[1] <= MaxLen /\ EnsureSizeSetX(x[1], x[2], x[3])
     \/ \E n \in {1, 3, 6} \cup Big : EnsureCanAdd(n)
